@@ -634,6 +634,37 @@ func famSeqs(n int, rng *rand.Rand, nrand int) []hSeq {
 	for r := 0; r < nrand; r++ {
 		out = append(out, hSeq{fmt.Sprintf("random#%d", r), mk(func(i int) bool { return rng.Intn(2) == 1 })})
 	}
+	// a de Bruijn cycle when n is a power of two: every w-bit cyclic window (w <= log2 n) occurs equally often, so the
+	// pattern statistics are exactly 0 (degenerate arguments of the incomplete gamma function)
+	if n >= 8 && n&(n-1) == 0 {
+		k := 0
+		for 1<<uint(k) < n {
+			k++
+		}
+		a := make([]int, 2*k)
+		var seq []bool
+		var db func(t, p int)
+		db = func(t, p int) {
+			if t > k {
+				if k%p == 0 {
+					for j := 1; j <= p; j++ {
+						seq = append(seq, a[j] == 1)
+					}
+				}
+				return
+			}
+			a[t] = a[t-p]
+			db(t+1, p)
+			for j := a[t-p] + 1; j < 2; j++ {
+				a[t] = j
+				db(t+1, t)
+			}
+		}
+		db(1, 1)
+		if len(seq) == n {
+			out = append(out, hSeq{"de-bruijn", seq})
+		}
+	}
 	// mostly random with one long run at the end / at the start (run accounting at the sequence boundaries)
 	out = append(out, hSeq{"random+closing-run-of-ones", mk(func(i int) bool { return i >= n-40 || rng.Intn(2) == 1 })})
 	out = append(out, hSeq{"random+closing-run-of-zeros", mk(func(i int) bool { return i < n-40 && rng.Intn(2) == 1 })})
